@@ -3,4 +3,5 @@ REGISTRY = {
     "C02": "c02_evidence",
     "C04": "c04_store",
     "C10": "c10_batch",
+    "C17": "c17_threshold",
 }
